@@ -49,6 +49,9 @@ type Sched struct {
 	// ProbeAbort makes Yield panic when called outside any worker (watchdog for probes that
 	// spin inside instrumented code on the controller side or on a helper goroutine).
 	ProbeAbort atomic.Bool
+	// ProbeYields counts the yields made while no worker holds the baton (by a probe running on
+	// the controller's side): a probe that has made many of them without finishing is spinning.
+	ProbeYields atomic.Int64
 }
 
 // Call is one client call: it runs the real operation and returns its result.
@@ -121,6 +124,7 @@ func (s *Sched) runCall(c Call) (v any, panicked bool) {
 func (s *Sched) Yield(site int) {
 	t := s.cur
 	if t < 0 {
+		s.ProbeYields.Add(1)
 		if s.ProbeAbort.Load() {
 			panic(abortT{})
 		}
